@@ -108,15 +108,20 @@ package annotateparser
 //@ func parserSingleType
 //@   sweep C01
 //@   props C16
-//@   ensures[array-wraps-the-single-type] typeis(result, "*annotateast.ArrayType") ==> as(result, "*annotateast.ArrayType").ItemType != nil && !typeis(as(result, "*annotateast.ArrayType").ItemType, "*annotateast.ArrayType")
+//@   ensures[array-wraps-a-type] typeis(result, "*annotateast.ArrayType") ==> as(result, "*annotateast.ArrayType").ItemType != nil
 //@ end
 // the "[]" suffix is looked for after EVERY kind of single type - a parenthesised union included, "(A|B)[]" is the
-// documented way to write an array of a union -, and when it is there the result is the array of exactly the type parsed
+// documented way to write an array of a union -, and as often as it is written: TYPE[] with TYPE itself an array,
+// "string[][]", is an array of arrays (until fix d06fdf3 only the first pair was read). Every pair consumed wraps the type
+// parsed so far once more; the function returns only when the next token is not "[".
 //@ func parserSingleType
 //@   props C16
-//@   ensures[array-suffix-is-looked-for-after-every-single-type] hits("LookAheadKind#1") == 1
-//@   ensures[suffix-consumed-iff-array-of-the-type-just-parsed] (hits("NextTokenOfKind#2") == 1 <==> typeis(result, "*annotateast.ArrayType"))
-//@        && (typeis(result, "*annotateast.ArrayType") ==> as(result, "*annotateast.ArrayType").ItemType == subType) && (!typeis(result, "*annotateast.ArrayType") ==> result == subType)
+//@   ensures[array-suffix-is-looked-for-after-every-single-type] hits("LookAheadKind#1") >= 1
+//@   ensures[every-array-suffix-is-consumed] l.aheadToken.valid && l.aheadToken.tokenKind != annotatelexer.ATokenVSepLbrack
+//@   ensures[suffix-consumed-iff-array] (hits("NextTokenOfKind#2") >= 1 <==> typeis(result, "*annotateast.ArrayType")) && hits("NextTokenOfKind#2") == hits("NextTokenOfKind#3")
+//@   loop for:l.LookAheadKind()==annotatelexer.ATokenVSepLbrack invariant subType != nil && (hits("NextTokenOfKind#2") >= 1 <==> typeis(subType, "*annotateast.ArrayType")) && hits("NextTokenOfKind#2") == hits("NextTokenOfKind#3")
+//@        && (typeis(subType, "*annotateast.ArrayType") ==> as(subType, "*annotateast.ArrayType").ItemType != nil)
+//@   loop for:l.LookAheadKind()==annotatelexer.ATokenVSepLbrack step [each-suffix-wraps-the-type-parsed-so-far] typeis(subType, "*annotateast.ArrayType") && as(subType, "*annotateast.ArrayType").ItemType == prev(subType)
 //@ end
 
 //@ func parserOneType
